@@ -24,6 +24,7 @@ from ..utilities.validate_input_value import (
     validate_input_literal,
     validate_input_value,
 )
+from ..utilities.value_to_literal import value_to_literal
 from .definition import (
     GraphQLArgument,
     GraphQLDefaultInput,
@@ -225,6 +226,20 @@ class SchemaValidationContext:
         )
 
         if not errors:
+            # The default must also be printable (introspection, SDL).
+            try:
+                printable = default_input.literal or value_to_literal(
+                    default_input.value, input_value.type
+                )
+            except Exception:  # noqa: BLE001
+                printable = None
+            if not printable:
+                self.report_error(
+                    f"{arg_str} has invalid default value:"
+                    f" {inspect(default_input.value)} cannot be represented"
+                    " as a GraphQL literal.",
+                    input_value.ast_node,
+                )
             return
 
         if not default_input.literal:
